@@ -11,7 +11,8 @@ def run(ctx):
     two = [s for s in wcat.twoproc_scenarios() if s["family"] == "2proc:tok"]
     plan = [
         {"scens": wcat.token_scenarios(("file", "process")), "policies": ("FIFO", "JOBS") if q else ("FIFO", "LIFO", "JOBS"), "bound": 1 if q else 2, "cap": 40000},
-        {"scens": two, "policies": ("FIFO", "LIFO"), "bound": 1 if q else 2, "cap": 60000},
+        {"scens": two, "policies": wcat.POL_WIDE, "bound": 1, "cap": 60000},
+        {"scens": two, "policies": ("FIFO",), "bound": 1 if q else 2, "cap": 400000},
         {"scens": wcat.nested_scenarios()[1:], "policies": ("FIFO",), "bound": 1, "cap": 20000},
     ]
     return run_w(ctx, PROPERTY, plan,
